@@ -258,17 +258,27 @@ theorem single_mock_exact_any_pkg_partial (syms : List Str) (entries : List Entr
 
 /-! ## 5. receiver -/
 
-/-- **the receiver is argument 0, for every instance**: whenever `e` is mocked by callback `k`, a call on *any*
-    receiver value with *any* arguments enters `k` with that receiver first and the arguments behind it (behind the
-    dictionary when the patched code is a shape body) — and an unmocked method runs its own body on them -/
-theorem receiver_is_arg0 {R A : Type} (syms : List Str) (s : BState) (e : Entry) (k : Nat) (dict : A)
-    (h : behavOf syms s.patched e = some k) (recv : R) (args : List A) :
-    callObs syms s e dict recv args = .mock k recv (if e.shape.isEmpty then args else dict :: args) := by
-  simp [callObs, h]
+/-- the adapter of `adaptToShapeFunc` removes exactly the word at the dictionary position, whatever stands before and
+    behind it (functions: `pre = []`; methods: `pre = [receiver]`) -/
+theorem adapt_drops_dictionary {A : Type} (pre post : List A) (d : A) :
+    adapt pre.length (pre ++ d :: post) = pre ++ post := by
+  simp [adapt]
 
-theorem unmocked_runs_original {R A : Type} (syms : List Str) (s : BState) (e : Entry) (dict : A)
-    (h : behavOf syms s.patched e = none) (recv : R) (args : List A) :
-    callObs syms s e dict recv args = .orig recv args := by
+/-- **receiver and arguments arrive exactly, for every instance — also for methods of instantiated generic types**:
+    whenever `e` is mocked by callback `k`, a call on *any* receiver value with *any* arguments (and any dictionary, for a
+    shape body) calls `k` with that receiver first and exactly those arguments behind it.  (Before fix 79126f8 the shape
+    case delivered `recv :: dict :: args`.) -/
+theorem receiver_and_args_exact {A : Type} (syms : List Str) (s : BState) (e : Entry) (k : Nat) (dict : A)
+    (h : behavOf syms s.patched e = some k) (recv : A) (args : List A) :
+    callObs syms s e dict recv args = .mock k (recv :: args) := by
+  simp only [callObs, h, delivered, entryArgs]
+  split
+  · rfl
+  · exact congrArg _ (adapt_drops_dictionary [recv] args dict)
+
+theorem unmocked_runs_original {A : Type} (syms : List Str) (s : BState) (e : Entry) (dict : A)
+    (h : behavOf syms s.patched e = none) (recv : A) (args : List A) :
+    callObs syms s e dict recv args = .orig (recv :: args) := by
   simp [callObs, h]
 
 /-! ## 6. kept handles: realistic multi-step use (`Model/MethodH.lean`, the model the driver runs)
@@ -397,6 +407,7 @@ def eSet : Entry := ⟨pa, "T".toList, true, "set".toList, [], 1⟩
 def eT2 : Entry := ⟨pa, "T2".toList, false, "Get".toList, [], 0⟩
 def eGi : Entry := ⟨pa, "G[int]".toList, true, "Get".toList, "G[go.shape.int]".toList, 0⟩
 def eGs : Entry := ⟨pa, "G[string]".toList, true, "Get".toList, "G[go.shape.string]".toList, 0⟩
+def eGiX : Entry := ⟨pa, "G[int]".toList, true, "GetX".toList, "G[go.shape.int]".toList, 1⟩
 def exEntries : List Entry := [eGet, eGetX, eSet, eT2, eGi, eGs]
 def exSyms : List Str := exEntries.map Entry.callSym ++ ["x/pa.(*G[int]).Get".toList]
 
@@ -462,6 +473,10 @@ example :
       [.structMethod ⟨pa, "T".toList, false⟩ "Get".toList]).1.patched eOther = none :=
   (single_mock_exact_any_pkg_partial _ _ eGet _ (by decide) (by decide) (by decide) (by decide) rfl rfl (by decide) (by decide)
     (by decide) (by decide) (by decide) (by decide) (by decide)).2
+/-- a method of an instantiated generic type: the shape body is entered with (receiver, dictionary, arguments), the
+    callback is called with (receiver, arguments) -/
+example : delivered eGiX 'D' 'R' ['a', 'b'] = ['R', 'a', 'b'] ∧ entryArgs eGiX 'D' 'R' ['a', 'b'] = ['R', 'D', 'a', 'b'] := by
+  decide
 end Examples
 
 end C06
